@@ -80,3 +80,142 @@ pub fn budget_tick() {
     std::process::exit(0);
   }
 }
+
+// ---------------------------------------------------------------------------
+// Host mapping pools. Creating and destroying large mappings, and toggling
+// their protection, dominates the cost of constructing a Core many thousands
+// of times per second. With `set_fast_mm(true)` on this thread, translation
+// arenas and ROM file mappings are recycled instead of being unmapped, and
+// pooled arenas stay readable, writable and executable. Off by default: the
+// production mmap/mprotect/munmap path is used unless the flag is set.
+
+thread_local! {
+  static FAST_MM: Cell<bool> = Cell::new(false);
+  // idle pooled arenas: (address, size)
+  static ARENA_IDLE: RefCell<Vec<(usize, usize)>> = RefCell::new(Vec::new());
+  // every pooled arena address, idle or in use
+  static ARENA_POOLED: RefCell<Vec<usize>> = RefCell::new(Vec::new());
+  // idle pooled ROM mappings: (device, inode, address, size)
+  static ROM_IDLE: RefCell<Vec<(u64, u64, usize, usize)>> = RefCell::new(Vec::new());
+  // every pooled ROM mapping in use: (address, device, inode)
+  static ROM_ACTIVE: RefCell<Vec<(usize, u64, u64)>> = RefCell::new(Vec::new());
+}
+
+pub fn set_fast_mm(on: bool) {
+  FAST_MM.with(|cell| cell.set(on));
+}
+
+pub fn fast_mm() -> bool {
+  FAST_MM.with(|cell| cell.get())
+}
+
+fn boxed_from_raw(address: usize, size: usize) -> Box<[u8]> {
+  unsafe { Vec::from_raw_parts(address as *mut u8, size, size).into_boxed_slice() }
+}
+
+/// A pooled (or newly pooled) arena of exactly `size` bytes, if fast mode is on
+pub fn arena_take(size: usize) -> Option<Box<[u8]>> {
+  if !fast_mm() {
+    return None;
+  }
+  let idle = ARENA_IDLE.with(|pool| {
+    let mut pool = pool.borrow_mut();
+    let found = pool.iter().position(|entry| entry.1 == size);
+    found.map(|index| pool.swap_remove(index))
+  });
+  if let Some((address, size)) = idle {
+    return Some(boxed_from_raw(address, size));
+  }
+  let pointer = unsafe {
+    libc::mmap(
+      std::ptr::null_mut(),
+      size,
+      libc::PROT_READ | libc::PROT_WRITE | libc::PROT_EXEC,
+      libc::MAP_ANONYMOUS | libc::MAP_PRIVATE,
+      -1,
+      0,
+    )
+  };
+  if pointer == libc::MAP_FAILED {
+    return None;
+  }
+  ARENA_POOLED.with(|all| all.borrow_mut().push(pointer as usize));
+  Some(boxed_from_raw(pointer as usize, size))
+}
+
+pub fn arena_is_pooled(address: usize) -> bool {
+  ARENA_POOLED.with(|all| all.borrow().contains(&address))
+}
+
+/// Returns the arena to the pool (None), or hands it back to be unmapped
+pub fn arena_recycle(memory: Box<[u8]>) -> Option<Box<[u8]>> {
+  let address = memory.as_ptr() as usize;
+  if !arena_is_pooled(address) {
+    return Some(memory);
+  }
+  let size = memory.len();
+  let _ = Box::into_raw(memory);
+  ARENA_IDLE.with(|pool| pool.borrow_mut().push((address, size)));
+  None
+}
+
+fn file_identity(fd: i32) -> Option<(u64, u64)> {
+  let mut stat: libc::stat = unsafe { std::mem::zeroed() };
+  if unsafe { libc::fstat(fd, &mut stat) } != 0 {
+    return None;
+  }
+  Some((stat.st_dev as u64, stat.st_ino as u64))
+}
+
+/// A pooled mapping of the same file and size, if fast mode is on
+pub fn rom_map_take(fd: i32, size: usize) -> Option<Box<[u8]>> {
+  if !fast_mm() {
+    return None;
+  }
+  let (device, inode) = file_identity(fd)?;
+  let idle = ROM_IDLE.with(|pool| {
+    let mut pool = pool.borrow_mut();
+    let found = pool.iter().position(|entry| entry.0 == device && entry.1 == inode && entry.3 == size);
+    found.map(|index| pool.swap_remove(index))
+  });
+  let address = match idle {
+    Some(entry) => entry.2,
+    None => {
+      let pointer = unsafe {
+        libc::mmap(
+          std::ptr::null_mut(),
+          size,
+          libc::PROT_READ | libc::PROT_WRITE,
+          libc::MAP_PRIVATE,
+          fd,
+          0,
+        )
+      };
+      if pointer == libc::MAP_FAILED {
+        return None;
+      }
+      pointer as usize
+    },
+  };
+  ROM_ACTIVE.with(|active| active.borrow_mut().push((address, device, inode)));
+  Some(boxed_from_raw(address, size))
+}
+
+/// Returns the ROM mapping to the pool (None), or hands it back to be unmapped
+pub fn rom_map_recycle(buffer: Box<[u8]>) -> Option<Box<[u8]>> {
+  let address = buffer.as_ptr() as usize;
+  let entry = ROM_ACTIVE.with(|active| {
+    let mut active = active.borrow_mut();
+    let found = active.iter().position(|entry| entry.0 == address);
+    found.map(|index| active.swap_remove(index))
+  });
+  match entry {
+    Some((address, device, inode)) => {
+      let size = buffer.len();
+      let _ = Box::into_raw(buffer);
+      ROM_IDLE.with(|pool| pool.borrow_mut().push((device, inode, address, size)));
+      None
+    },
+    None => Some(buffer),
+  }
+}
